@@ -186,7 +186,7 @@ func (m *convergenceMonitor) Final(rc *RunCtx) *Violation {
 			srv, _, err := rc.ServerDoc(d)
 			if err != nil {
 				return &Violation{Property: m.prop, Oracle: "server_rebuild_succeeds", Class: "server_rebuild_failed:" + normErr(err.Error()),
-					Detail: fmt.Sprintf("doc %d: BuildInternalDocForServerSeq(head) failed: %v", d, err), Step: rc.I}
+					Detail: fmt.Sprintf("doc %d: BuildInternalDocForServerSeq(head) failed: %v%s%s", d, err, describeLog(rc, d), debugRebuild(rc, d)), Step: rc.I}
 			}
 			if srv != ref {
 				return &Violation{Property: m.prop, Oracle: "server_equals_replicas", Class: "server_rebuild_differs",
